@@ -911,56 +911,62 @@ func TestVerifC09LegacyShared(t *testing.T) {
 // TestVerifC09SharedCancelCrash runs, in a process of its own, the one scenario the shared driver must
 // not run in-process on a tree with finding F19: the joined push leaves while it is the only waiter
 // (its release() cancels the upload's run context), then the owner's session POST succeeds.
+// blobUpload.Run then chooses between `<-inner.Done()` and `<-b.nextURL` with both ready — Go picks at
+// random — and dies on the first; the scenario is therefore repeated 24 times (a tree that survives
+// them all is taken to be repaired: the chance of a miss is 2^-24).
 func TestVerifC09SharedCancelCrash(t *testing.T) {
 	if os.Getenv("VERIF_OUT") == "" {
 		t.Skip("VERIF_OUT not set")
 	}
-	dir := t.TempDir()
-	t.Setenv("OLLAMA_MODELS", dir)
-	opened := c09LResp{202, true}
-	s := &c09ShScript{headB: []c09LResp{{404, false}}, post: []c09LResp{opened}, postEnd: "ans", cancelB: true, patch: [][]c09LResp{{opened}}}
-	dig := c09LegacyBlob(t, dir, []byte("shared-cancel"))
-	m := &Manifest{SchemaVersion: 2, Layers: []Layer{{MediaType: "application/vnd.ollama.image.model", Digest: dig, Size: 13}}}
-	for _, name := range []string{"example.com/library/pa:latest", "example.com/library/pb:latest"} {
-		fp, _ := ParseModelPath(name).GetManifestPath()
-		os.MkdirAll(filepath.Dir(fp), 0o755)
-		mdata, _ := json.Marshal(m)
-		os.WriteFile(fp, mdata, 0o644)
-	}
-	reg := &c09ShReg{s: s}
-	old := http.DefaultTransport
-	http.DefaultTransport = reg
-	defer func() { http.DefaultTransport = old }()
-	var errA, errB error
-	synctest.Test(t, func(t *testing.T) {
-		reg.gate = make(chan string, 1)
-		ctxB, cancelB := context.WithCancel(context.Background())
-		defer cancelB()
-		doneA, doneB := make(chan struct{}), make(chan struct{})
-		go func() {
-			defer close(doneA)
-			errA = PushModel(context.Background(), "example.com/library/pa:latest", &registryOptions{Insecure: true}, func(api.ProgressResponse) {})
-		}()
-		synctest.Wait()
-		go func() {
-			defer close(doneB)
-			errB = PushModel(ctxB, "example.com/library/pb:latest", &registryOptions{Insecure: true}, func(api.ProgressResponse) {})
-		}()
-		synctest.Wait()
-		cancelB()
-		synctest.Wait()
-		reg.gate <- "go"
-		<-doneA
-		<-doneB
-	})
-	blobUploadManager.Delete(dig)
-	for _, e := range reg.global {
-		if strings.Contains(e, ":M:") {
-			t.Errorf("a manifest was sent: %v", reg.global)
+	for iter := 0; iter < 24; iter++ {
+		dir := t.TempDir()
+		t.Setenv("OLLAMA_MODELS", dir)
+		opened := c09LResp{202, true}
+		s := &c09ShScript{headB: []c09LResp{{404, false}}, post: []c09LResp{opened}, postEnd: "ans", cancelB: true, patch: [][]c09LResp{{opened}}}
+		data := []byte(fmt.Sprintf("shared-cancel-%d", iter))
+		dig := c09LegacyBlob(t, dir, data)
+		m := &Manifest{SchemaVersion: 2, Layers: []Layer{{MediaType: "application/vnd.ollama.image.model", Digest: dig, Size: int64(len(data))}}}
+		for _, name := range []string{"example.com/library/pa:latest", "example.com/library/pb:latest"} {
+			fp, _ := ParseModelPath(name).GetManifestPath()
+			os.MkdirAll(filepath.Dir(fp), 0o755)
+			mdata, _ := json.Marshal(m)
+			os.WriteFile(fp, mdata, 0o644)
 		}
-	}
-	if errA == nil || errB == nil {
-		t.Errorf("errA=%v errB=%v: both pushes must fail", errA, errB)
+		reg := &c09ShReg{s: s}
+		old := http.DefaultTransport
+		http.DefaultTransport = reg
+		var errA, errB error
+		synctest.Test(t, func(t *testing.T) {
+			reg.gate = make(chan string, 1)
+			ctxB, cancelB := context.WithCancel(context.Background())
+			defer cancelB()
+			doneA, doneB := make(chan struct{}), make(chan struct{})
+			go func() {
+				defer close(doneA)
+				errA = PushModel(context.Background(), "example.com/library/pa:latest", &registryOptions{Insecure: true}, func(api.ProgressResponse) {})
+			}()
+			synctest.Wait()
+			go func() {
+				defer close(doneB)
+				errB = PushModel(ctxB, "example.com/library/pb:latest", &registryOptions{Insecure: true}, func(api.ProgressResponse) {})
+			}()
+			synctest.Wait()
+			cancelB()
+			synctest.Wait()
+			reg.gate <- "go"
+			<-doneA
+			<-doneB
+		})
+		http.DefaultTransport = old
+		blobUploadManager.Delete(dig)
+		for _, e := range reg.global {
+			if strings.Contains(e, ":M:") {
+				t.Errorf("a manifest was sent: %v", reg.global)
+			}
+		}
+		if errA == nil || errB == nil {
+			t.Errorf("errA=%v errB=%v: both pushes must fail", errA, errB)
+		}
 	}
 	os.WriteFile(filepath.Join(os.Getenv("VERIF_OUT"), "runcancel.txt"), []byte("safe\n"), 0o644)
 }
